@@ -314,7 +314,8 @@ func (b *Builder) Diff(rv reflect.Value, av map[string]any, path string) string 
 			if av["t"] == "null" || (av["t"] == "bytes" && len(av["v"].([]any)) == 0) {
 				return ""
 			}
-			if (av["t"] == "arr" || av["t"] == "map") && len(av["v"].([]any)) == 0 {
+			// a nil POINTER is an unset optional / defaulted field: that is not "present and empty"
+			if (av["t"] == "arr" || av["t"] == "map") && len(av["v"].([]any)) == 0 && rv.Kind() != reflect.Ptr {
 				return ""
 			}
 			return path + ": absent, expected " + short(av)
